@@ -25,6 +25,18 @@ from .values import (NONE, IntSeq, Unsupported, V, VBool, VBound, VBytes, VConst
 z3.set_param("model.completion", True)
 
 
+DEADLINE_PASSED = False
+
+
+class DeadlinePassed(Exception):
+    """The unit's wall-clock budget is exhausted (undecided, never a verdict)."""
+
+
+def poll_deadline() -> None:
+    if DEADLINE_PASSED:
+        raise DeadlinePassed()
+
+
 class PathAbort(Exception):
     """The current path is infeasible or was cut by an assumption."""
 
@@ -73,6 +85,25 @@ class Obligation:
         return {"name": self.name, "status": self.status, "backend": self.backend,
                 "ms": round(self.ms, 2), "model": self.model, "detail": self.detail,
                 "path": self.path}
+
+
+_PURE: dict[int, tuple[Any, bool]] = {}
+
+
+def is_pure(t: Any) -> bool:
+    """No sequence/string-sorted subterm and no quantifier (arithmetic + UF over ints only)."""
+    k = t.get_id()
+    hit = _PURE.get(k)
+    if hit is not None:
+        return hit[1]
+    if z3.is_quantifier(t):
+        r = False
+    elif t.sort().kind() in (z3.Z3_SEQ_SORT, z3.Z3_RE_SORT):
+        r = False
+    else:
+        r = all(is_pure(c) for c in t.children())
+    _PURE[k] = (t, r)
+    return r
 
 
 _AST_CACHE: dict[Any, tuple[ast.AST, str]] = {}
@@ -127,6 +158,9 @@ class Explorer:
         self.inline_policy: Callable[[Any], bool] = lambda fn: True
         self.loop_contracts: dict[tuple[str, int], Any] = {}
         self.setup: Callable[["Interp"], None] | None = None
+        self.feas_cache: dict[Any, Any] = {}
+        self.feas_queries = 0
+        self.feas_unknown = 0
 
     def run(self, harness: Callable[["Interp"], None]) -> None:
         stack: list[list[int]] = [[]]
@@ -154,8 +188,11 @@ class Interp:
         self.decisions: list[int] = []
         self.alternatives: list[list[int]] = []
         self.pc: list[Any] = []
-        self.solver = z3.Solver()
-        self.solver.set("timeout", ex.feas_timeout_ms)
+        self.solver_assertions: list[Any] = []
+        self.pure_assertions: list[Any] = []
+        self._pure_upto = 0
+        self.pc_ids: set[int] = set()
+        self.template_index: Any = None  # generic iteration index while a loop body is summarised
         self.inputs: dict[str, V] = {}
         self.lambda_axioms: list[Callable[[Any], Any]] = []
         self.index_terms: list[Any] = []
@@ -167,6 +204,9 @@ class Interp:
 
     # ------------------------------------------------------------------ symbols
     def fresh_name(self, base: str) -> str:
+        if self.template_index is not None and not base.startswith(("j", "cj", "jr", "cjr")):
+            # a fresh symbol created in a generic iteration would have to depend on the index
+            raise Unsupported(f"fresh symbol '{base}' inside a summarised loop body")
         self.fresh_no += 1
         return f"{base}!{self.fresh_no}"
 
@@ -190,14 +230,16 @@ class Interp:
 
     def fresh_bytes(self, name: str, inp: bool = False, minlen: int = 0,
                     maxlen: int | None = None) -> VBytes:
+        from . import models
         t = z3.Const(self.fresh_name(name) if not inp else name, IntSeq)
-        if minlen:
-            self.assume(z3.Length(t) >= minlen)
+        # the length lives in a pure Int constant so that length arithmetic stays arithmetic
+        ln = z3.Int((self.fresh_name(name) if not inp else name) + "#len")
+        models.set_known_len(t, ln)
+        self.assume(z3.Length(t) == ln)
+        self.assume(ln >= minlen)
         if maxlen is not None:
-            self.assume(z3.Length(t) <= maxlen)
-        # bytes invariant: every element is in 0..255 (instantiated for the index terms in use)
-        self.lambda_axioms_add(lambda j, t=t: z3.Implies(z3.And(j >= 0, j < z3.Length(t)),
-                                                         z3.And(t[j] >= 0, t[j] <= 255)))
+            self.assume(ln <= maxlen)
+        # bytes invariant (every element in 0..255) is assumed where an element is read
         v = VBytes(t)
         if inp:
             self.inputs[name] = v
@@ -235,15 +277,19 @@ class Interp:
             if not f:
                 raise PathAbort()
             return
+        fid = f.get_id()
+        if fid in self.pc_ids:
+            return
+        self.pc_ids.add(fid)
         self.pc.append(f)
-        self.solver.add(f)
-        if check and self.solver.check() == z3.unsat:
+        self.solver_assertions.append(f)
+        if check and not self.feasible(z3.BoolVal(True)):
             raise PathAbort()
 
     def lambda_axioms_add(self, ax: Callable[[Any], Any]) -> None:
         self.lambda_axioms.append(ax)
         for j in self.index_terms:
-            self.solver.add(ax(j))
+            self.solver_assertions.append(ax(j))
 
     def note_index(self, j: Any) -> None:
         if isinstance(j, int):
@@ -255,18 +301,97 @@ class Interp:
             return
         self.index_terms.append(j)
         for ax in self.lambda_axioms:
-            self.solver.add(ax(j))
+            self.solver_assertions.append(ax(j))
 
     def instantiated_axioms(self) -> list[Any]:
         return [ax(j) for ax in self.lambda_axioms for j in self.index_terms]
 
     def feasible(self, f: Any) -> bool:
-        self.solver.push()
-        self.solver.add(f)
+        # replayed paths repeat the queries of their common prefix: memoise per explorer
+        key = (tuple(p.get_id() for p in self.pc), len(self.index_terms),
+               len(self.lambda_axioms), f.get_id() if z3.is_expr(f) else f)
+        hit = self.ex.feas_cache.get(key)
+        if hit is not None:
+            return hit[0]
+        r = self._feasible(f)
+        # the cached ASTs are kept alive so that z3 cannot reuse their ids
+        self.ex.feas_cache[key] = (r, tuple(self.pc), f)
+        return r
+
+    def entails(self, f: Any) -> bool:
+        """PC |= f, decided on the pure-arithmetic projection of the path condition (formulas
+        without sequence-sorted subterms).  Sound: a weaker premise can only entail less."""
+        if isinstance(f, bool):
+            return f
+        f = z3.simplify(f)
+        if z3.is_true(f):
+            return True
+        if z3.is_false(f) or not is_pure(f):
+            return False
+        s = z3.Solver()
+        s.set("timeout", 2000)
+        s.add(*self.pure())
+        s.add(z3.Not(f))
         t0 = time.time()
-        r = self.solver.check()
+        r = s.check() == z3.unsat
         self.ex.solver_ms += (time.time() - t0) * 1000
-        self.solver.pop()
+        return r
+
+    def concrete_value(self, t: Any) -> int | None:
+        """The integer k with PC |= t == k (arithmetic projection), if there is one."""
+        t = z3.simplify(t)
+        if z3.is_int_value(t):
+            return t.as_long()
+        if not is_pure(t):
+            return None
+        s = z3.Solver()
+        s.set("timeout", 2000)
+        s.add(*self.pure())
+        if s.check() != z3.sat:
+            return None
+        v = s.model().eval(t, model_completion=True)
+        if not z3.is_int_value(v):
+            return None
+        return v.as_long() if self.entails(t == v) else None
+
+    def pure(self) -> list[Any]:
+        k = len(self.solver_assertions)
+        if k != self._pure_upto:
+            for a in self.solver_assertions[self._pure_upto:]:
+                if is_pure(a):
+                    self.pure_assertions.append(a)
+            self._pure_upto = k
+        return self.pure_assertions
+
+    def n_pure(self) -> int:
+        return len(self.pure())
+
+    def _feasible(self, f: Any) -> bool:
+        poll_deadline()
+        if z3.is_expr(f) and is_pure(f):
+            # a pure condition is first decided on the arithmetic projection: unsat there is
+            # unsat for the full path condition; sat there is accepted (over-approximation)
+            s = z3.Solver()
+            s.set("timeout", self.ex.feas_timeout_ms)
+            s.add(*self.pure())
+            s.add(f)
+            t0 = time.time()
+            r = s.check()
+            self.ex.solver_ms += (time.time() - t0) * 1000
+            self.ex.feas_queries += 1
+            return r != z3.unsat
+        # a fresh (non-incremental) solver per query: z3's incremental core is an order of
+        # magnitude slower on mixed sequence/arithmetic constraints than its default tactic
+        s = z3.Solver()
+        s.set("timeout", self.ex.feas_timeout_ms)
+        s.add(*self.solver_assertions)
+        s.add(f)
+        t0 = time.time()
+        r = s.check()
+        self.ex.solver_ms += (time.time() - t0) * 1000
+        self.ex.feas_queries += 1
+        if r == z3.unknown:
+            self.ex.feas_unknown += 1
         return r != z3.unsat  # unknown counts as feasible (over-approximation)
 
     def truth(self, v: Any) -> Any:
@@ -336,6 +461,7 @@ class Interp:
             f = f.t
         if isinstance(f, bool):
             f = z3.BoolVal(f)
+        poll_deadline()
         t0 = time.time()
         s = z3.Solver()
         s.set("timeout", self.ex.query_timeout_ms)
@@ -405,6 +531,12 @@ class Interp:
                 return self.call_py(py.__func__, [wrap(py.__self__)] + args, kwargs, None)
             if isinstance(py, (classmethod, staticmethod)):
                 return self.call_py(py.__func__, args, kwargs, None)
+            if isinstance(py, types.BuiltinFunctionType) and isinstance(
+                    getattr(py, "__self__", None),
+                    (types.MappingProxyType, dict, list, tuple, frozenset, set)) \
+                    and not args and not kwargs:
+                # reflection on concrete containers (cls.__dict__.values() …) is concrete data
+                return wrap(list(py()) if py.__name__ in ("values", "keys", "items") else py())
             raise Unsupported(f"uncontracted call to {py!r}")
         if isinstance(callee, VObj):
             found = self.class_lookup(callee.cls, "__call__")
@@ -582,7 +714,9 @@ class Interp:
                     if isinstance(raw, (types.FunctionType, property)):
                         return VConst(raw)
                     if isinstance(raw, (types.MemberDescriptorType, types.GetSetDescriptorType,
-                                        types.WrapperDescriptorType, types.MethodDescriptorType)):
+                                        types.WrapperDescriptorType, types.MethodDescriptorType,
+                                        types.ClassMethodDescriptorType,
+                                        types.BuiltinFunctionType)):
                         return wrap(getattr(py, name))
                     return wrap(raw)
             try:
@@ -602,6 +736,8 @@ class Interp:
             return VBound(raw.__func__, VConst(cls), owner)
         if isinstance(raw, staticmethod):
             return VConst(raw.__func__)
+        if isinstance(raw, types.WrapperDescriptorType) and raw.__name__ == "__init__":
+            return VBound("__base_init__", recv)
         import functools
         if isinstance(raw, functools.cached_property):
             return self.call_py(raw.func, [recv], {}, owner)
@@ -625,6 +761,7 @@ class Interp:
             self.exec_stmt(st, fr)
 
     def exec_stmt(self, st: ast.stmt, fr: Frame) -> None:
+        poll_deadline()
         m = getattr(self, "st_" + type(st).__name__, None)
         if m is None:
             raise Unsupported(f"statement {type(st).__name__} in {fr.qualname}")
